@@ -512,6 +512,34 @@ func (g *G) optPaths(sc *Scope) []*Var {
 	return out
 }
 
+// optFields lists null-safe accesses into optional (possibly absent or null)
+// map and list variables: $opt?.field, $opt?[0]. Their value may be null, so
+// they are only used in null-tolerant positions.
+func (g *G) optFields(sc *Scope) (out []path) {
+	for _, v := range g.optPaths(sc) {
+		switch v.T.K {
+		case Map:
+			for _, f := range v.T.Fields {
+				acc := Access{Kind: "key", Key: f.Name, NullSafe: true}
+				if g.Chance(30) {
+					acc = Access{Kind: "expr", Expr: &Expr{Op: "str", S: f.Name}, NullSafe: true}
+				}
+				out = append(out, path{e: &Expr{Op: "ref", Name: v.Name, Access: []Access{acc}}, t: f.T, v: v})
+			}
+		case List:
+			out = append(out, path{e: &Expr{Op: "ref", Name: v.Name, Access: []Access{{Kind: "index", Index: 0, NullSafe: true}}}, t: v.T.Elem, v: v})
+		}
+	}
+	return out
+}
+
+func (g *G) useOptField(p path) *Expr {
+	if p.v != nil && p.v.used != nil {
+		*p.v.used = true
+	}
+	return p.e
+}
+
 func (g *G) expr1(sc *Scope, want *Ty, depth int) *Expr {
 	if depth <= 0 {
 		return g.leaf(sc, want)
@@ -522,6 +550,13 @@ func (g *G) expr1(sc *Scope, want *Ty, depth int) *Expr {
 	case 1: // ternary
 		return &Expr{Op: "tern", Args: []*Expr{g.cond(sc, d), g.Expr(sc, want, d), g.Expr(sc, want, d)}}
 	case 2: // elvis: optional ?: default, or non-null ?: anything
+		if ofs := g.optFields(sc); len(ofs) > 0 && g.Chance(50) {
+			for _, of := range ofs {
+				if sameTy(of.t, want) && of.t.K != List {
+					return bin("?:", g.useOptField(of), g.Expr(sc, want, d))
+				}
+			}
+		}
 		if opts := g.optPaths(sc); len(opts) > 0 {
 			for _, v := range opts {
 				base := *v.T
@@ -558,8 +593,11 @@ func (g *G) expr1(sc *Scope, want *Ty, depth int) *Expr {
 		case 3:
 			return &Expr{Op: "not", Args: []*Expr{g.cond(sc, d)}}
 		case 4:
-			if g.P.Common || g.Chance(50) {
+			if (g.P.Common && len(g.optPaths(sc)) == 0) || g.Chance(50) {
 				return call("isNonnull", g.Expr(sc, g.ScalarType(), d))
+			}
+			if ofs := g.optFields(sc); len(ofs) > 0 && g.Chance(50) {
+				return call("isNonnull", g.useOptField(ofs[g.Intn(len(ofs))]))
 			}
 			if opts := g.optPaths(sc); len(opts) > 0 {
 				return call("isNonnull", g.useVar(opts[g.Intn(len(opts))]))
